@@ -37,6 +37,51 @@ Fixpoint missing_from (tab : list chunk) (t : nat) (pos : N) : list rentry :=
   end.
 Definition missing_ridx (tab : list chunk) : list rentry := missing_from tab 0 0.
 
+(** * Re-scan of the target between transfers
+
+    What a client that re-checks its file does, and src/zck_dl.c does once at the start:
+    [zck_find_valid_chunks] followed by [zck_reset_failed_chunks].  This is NOT a transcription
+    of validate_checksums (that is the C09 scan); it is its specification: every flag is
+    recomputed from the file — valid iff the chunk's extent lies inside the file and its bytes
+    hash to the digest (a first chunk without bytes is valid by decree), unknown otherwise
+    (failed = -1 is turned back into 0 by zck_reset_failed_chunks).  Side effects that matter
+    to the download path: the chunk hash context is finalised, the descriptor is left at the
+    start of the data section.  Not modelled: the whole-data checksum comparison made when all
+    chunks are good (in the harness the stored data digest is that of the true chunk bytes, so
+    it agrees whenever all chunk digests agree).  With the error flag set the scan refuses to
+    run and only the failed flags are reset. *)
+Section Rescan.
+Variable H : bytes -> bytes.
+Variable doff : N.
+
+Definition rescan_flag (file : bytes) (t : nat) (c : chunk) : vflag :=
+  if (t =? 0)%nat && (c_len c =? 0) then VValid else
+  if (doff + c_start c + c_len c <=? len file) &&
+     chunk_digest_ok H c (fread file (doff + c_start c) (N.to_nat (c_len c)))
+  then VValid else VUnknown.
+
+Fixpoint rescan_tab (file : bytes) (tab : list chunk) (t : nat) : list chunk :=
+  match tab with
+  | [] => []
+  | c :: rest =>
+      mkChunk (c_start c) (c_len c) (c_digest c) (rescan_flag file t c) :: rescan_tab file rest (S t)
+  end.
+
+Definition unfail (tab : list chunk) : list chunk :=
+  map (fun c => mkChunk (c_start c) (c_len c) (c_digest c)
+                  (match c_valid c with VFailed => VUnknown | v => v end)) tab.
+
+Definition rescan (x : xstate) : xstate :=
+  let s := x_dl x in
+  if d_err s then
+    mkX (mkDl true (d_pos s) (d_wic s) (d_tgt s) (d_cur s) (d_acc s) (d_fpos s) (d_file s) (unfail (d_tab s)))
+        (x_mp x) (x_boundary x) (x_rx x)
+  else
+    mkX (mkDl false (d_pos s) (d_wic s) (d_tgt s) (d_cur s) None doff (d_file s)
+              (rescan_tab (d_file s) (d_tab s) 0))
+        (x_mp x) (x_boundary x) (x_rx x).
+End Rescan.
+
 Record transfer := mkT {
   t_hdrs : list bytes;     (* response header lines handed to zck_header_cb *)
   t_frags : list bytes }.  (* body fragments handed to zck_write_chunk_cb; may stop early *)
